@@ -241,18 +241,15 @@ def check_grid(case):
             args = args_for(unit, nskey)
             es, js = expected(t, unit, ns)
             rs = []
-            good = True
             for a, e, n in zip(args, es, ns):
                 try:
                     r = dt_bump(t, a)
                 except Exception as ex:
                     rec('raised', 'dt_bump(%r, %r) raised %s: %s; expected %s' % (t, a, type(ex).__name__, ex, e), unit=unit, sign=_sgn(n))
                     rs.append(None)
-                    good = False
                     continue
                 rs.append(r)
                 if r != e:
-                    good = False
                     if unit == 'b':
                         kind = 'b-lands-on-weekend' if isinstance(r, datetime.datetime) and r.weekday() > 4 else 'b-wrong-day'
                         rec(kind, 'dt_bump(%r [%s], %r): expected %s observed %s' % (t, 'Mon Tue Wed Thu Fri Sat Sun'.split()[wd], a, e, r),
